@@ -115,6 +115,18 @@ func (s *ScopeSchema) ApplyNamespace(externalObjects map[string]*ObjectSchema, n
 }
 
 func (s *ScopeSchema) ValidateReferences() error {
+	// The root is a reference to one of the objects of the scope, too.
+	rootObject, rootObjectFound := s.ObjectsValue[s.RootValue]
+	if !rootObjectFound || rootObject == nil {
+		return BadArgumentError{
+			Message: fmt.Sprintf("root object with ID %q not found in scope", s.RootValue),
+		}
+	}
+	if rootObject.ID() != s.RootValue {
+		return BadArgumentError{
+			Message: fmt.Sprintf("root object's ID %q doesn't match its map key %q", rootObject.ID(), s.RootValue),
+		}
+	}
 	for _, v := range s.ObjectsValue {
 		err := v.ValidateReferences()
 		if err != nil {
